@@ -782,8 +782,8 @@ class convert_to_dot_bracket:
                 "forall a, b | assert implies(0 <= a and a < b and b < len(regions), not cross(regions, a, b))",
                 "forall a, b | assert implies(0 <= a and a < len(regions) and 0 <= b and b < len(regions), not cross(regions, a, b))",
                 "unstash RM", "unstash START"]},
-        {"when": "before", "at": "max_order = max(", "label": "level-bound-mark", "do": ["mark LB"]},
-        {"when": "after", "at": "max_order = max(", "label": "level-bound",
+        {"when": "before", "at": "max_order =", "label": "level-bound-mark", "do": ["mark LB"]},
+        {"when": "after", "at": "max_order =", "label": "level-bound",
          "do": [
                 "forall a, b | let CAB = 0 <= a and a < b and b < len(regions) and cross(regions, a, b) "
                 "| assert implies(CAB, 0 <= combinations_pos[(a, b)] and combinations_pos[(a, b)] < c0) "
@@ -909,7 +909,7 @@ class convert_to_dot_bracket_model(convert_to_dot_bracket):
     })
     ghost = [
         # (runs before the base contract's level-bound block, which drops the defining facts of max / map / len)
-        {"when": "after", "at": "max_order = max(", "label": "model-2-level-bound",
+        {"when": "after", "at": "max_order =", "label": "model-2-level-bound",
          "do": ["mark M2",
                 "forall a, b | let CAB = 0 <= a and a < b and b < len(regions) and cross(regions, a, b) "
                 "| assert implies(CAB, 0 <= combinations_pos[(a, b)] and combinations_pos[(a, b)] < c0) "
@@ -927,7 +927,7 @@ class convert_to_dot_bracket_model(convert_to_dot_bracket):
                 "assert degree_bound(graph, regions, max_order)",
                 "summarize M2 as 1 <= max_order"]},   # (the clause is recorded as an obligation; its lambda terms are not kept)
     ] + convert_to_dot_bracket.ghost + [
-        {"when": "after", "at": "max_order = max(", "label": "model-1-conflict-graph", "do": ["assert graph_exact(graph, regions)"]},
+        {"when": "after", "at": "max_order =", "label": "model-1-conflict-graph", "do": ["assert graph_exact(graph, regions)"]},
         {"when": "before", "at": "terms = []", "label": "model-3-variables",
          "do": ["assert " + _VF.format(i="len(regions)", j="0") + " and " + _VB.format(i="len(regions)", j="0") + " and " + _VN,
                 "let TPOS = empty('dict[tuple[int,int],int]')"]},
